@@ -74,6 +74,8 @@ func (c *Calcium) newWorkloadSender(ctx context.Context, ID string, resp chan *t
 				utils.SentryGo(func(ID, name string, size int64, content io.Reader, uid, gid int, mode int64) func() {
 					return func() {
 						defer wg.Done()
+						// whatever happened, nobody reads the pipe any more: let pending and later writes fail instead of blocking forever
+						defer pr.Close()
 						if err := sender.calcium.withWorkloadLocked(ctx, ID, false, func(ctx context.Context, workload *types.Workload) error {
 							err := errors.WithStack(workload.Engine.VirtualizationCopyChunkTo(ctx, ID, name, size, content, uid, gid, mode))
 							resp <- &types.SendMessage{ID: ID, Path: name, Error: err}
@@ -91,6 +93,9 @@ func (c *Calcium) newWorkloadSender(ctx context.Context, ID string, resp chan *t
 			}
 		}
 		writer.Close()
+		// keep draining, otherwise send() blocks the whole call once the buffer is full
+		for range sender.buffer { //nolint:revive
+		}
 	})
 	return sender
 }
